@@ -60,6 +60,7 @@ type regRun struct {
 	nfSet  bool // a non-empty NotFound chain is installed
 	naSet  bool
 	nRoute int
+	late   []lateUse
 }
 
 func newRegRun(opt405 bool) *regRun {
@@ -185,23 +186,58 @@ func (e *regRun) arg(s string) ([]rux.HandlerFunc, bool) {
 	return full[:len(tags)], true
 }
 
-func (e *regRun) uses(s string) ([][]rux.HandlerFunc, bool) {
+// useCall is one Route.Use call; late = made only after the rest of the program has run (`~` in the op line).
+type useCall struct {
+	mws  []rux.HandlerFunc
+	late bool
+}
+
+func (e *regRun) uses(s string) ([]useCall, bool) {
 	if s == "-" {
 		return nil, true
 	}
-	var out [][]rux.HandlerFunc
+	var out []useCall
 	for _, c := range strings.Split(s, "/") {
+		late := strings.HasPrefix(c, "~")
+		c = strings.TrimPrefix(c, "~")
 		if c == "e" {
-			out = append(out, nil)
+			out = append(out, useCall{nil, late})
 			continue
 		}
 		a, ok := e.arg(c)
 		if !ok {
 			return nil, false
 		}
-		out = append(out, a)
+		out = append(out, useCall{a, late})
 	}
 	return out, true
+}
+
+type lateUse struct {
+	id  int
+	rt  *rux.Route
+	mws []rux.HandlerFunc
+}
+
+// runLate makes the postponed Route.Use calls: each may only append to its own route.
+func (e *regRun) runLate() {
+	late := e.late
+	e.late = nil
+	for _, l := range late {
+		before := e.tagsOf(l.rt.Handlers())
+		l.rt.Use(l.mws...)
+		after := e.tagsOf(l.rt.Handlers())
+		if before != "-" && !strings.HasPrefix(after+",", before+",") {
+			e.oracle = append(e.oracle, fmt.Sprintf("C12 no-alias: a later Use on route %d turned its handlers [%s] into [%s]", l.id, before, after))
+		}
+		if sn, ok := e.snaps[l.id]; ok && e.routes[l.id] == l.rt {
+			if sn.tags != before {
+				e.oracle = append(e.oracle, fmt.Sprintf("C12 no-alias: Handlers() of route %d were [%s] when it was registered and are [%s] before its later Use", l.id, sn.tags, before))
+			}
+			sn.tags = after
+			e.snaps[l.id] = sn
+		}
+	}
 }
 
 var regProgKw = map[string]bool{"use": true, "notfound": true, "notallowed": true, "route": true, "resource": true,
@@ -358,7 +394,7 @@ func (e *regRun) execRoute(f []string) {
 	var rt *rux.Route
 	switch kind {
 	case "verb":
-		first := post[0]
+		first := post[0].mws
 		post = post[1:]
 		switch methods[0] {
 		case "GET":
@@ -387,7 +423,7 @@ func (e *regRun) execRoute(f []string) {
 	case "named":
 		rt = e.r.AddNamed(name, path, h, methods...)
 	case "any":
-		e.r.Any(path, h, pre[0]...)
+		e.r.Any(path, h, pre[0].mws...)
 		e.r.IterateRoutes(func(x *rux.Route) {
 			if !e.seen[x] {
 				rt = x
@@ -400,15 +436,21 @@ func (e *regRun) execRoute(f []string) {
 			rt = rux.NewRoute(path, h, methods...)
 		}
 		for _, u := range pre {
-			rt.Use(u...)
+			rt.Use(u.mws...)
 		}
 		e.r.AddRoute(rt)
 	}
+	var late []lateUse
 	for _, u := range post {
-		rt.Use(u...)
+		if u.late || len(late) > 0 { // keep the order of the calls on one route
+			late = append(late, lateUse{id, rt, u.mws})
+			continue
+		}
+		rt.Use(u.mws...)
 	}
 	if rt != nil {
 		e.noteRoute(id, rt)
+		e.late = append(e.late, late...)
 	}
 }
 
@@ -581,6 +623,8 @@ func (e *regRun) step(op string) (res string) {
 		}
 		e.execBlock(toks, 0, true)
 		e.checkSnaps("after the program")
+		e.runLate()
+		e.checkSnaps("after the late Route.Use calls")
 		p, g, gl := e.r.VerifScope()
 		return fmt.Sprintf("ok %d ;; %s %d %d", e.nRoute, hx(p), g, gl)
 	case f[0] == "info" && len(f) == 2:
@@ -706,6 +750,11 @@ func (regEngine) Corpus() []Case {
 			"route 2 pre - PUT,PATCH " + h("r2") + " - -", "end",
 			"route 3 pre - GET " + h("/r3/") + " 2005+3 2006/2007", "run", "info 1", "info 2", "info 3",
 			"serve 1 GET", "serve 2 PATCH", "serve 3 GET", "serve 3 HEAD", "routes"}},
+		// Route.Use calls made only after the rest of the program ran (~): same lists, nothing else changes
+		{Ops: []string{"new 0", "use 2000", "group " + h("/g") + " 2001+3", "route 1 verb - GET " + h("/r1") + " - 2002+2/~2003/2004",
+			"group " + h("/h") + " 2005", "route 2 pre - POST " + h("/r2") + " 2006+1 ~2007+2", "end", "use 2008",
+			"route 3 add - GET " + h("/r3") + " - ~e/~2009", "end", "route 4 add - GET " + h("/r4") + " - 2010/~2011", "run",
+			"info 1", "info 2", "info 3", "info 4", "serve 1 GET", "serve 2 POST", "serve 3 GET", "serve 4 GET"}},
 		// Controller and Resource inside a group; custom fallbacks
 		{Ops: []string{"new 1", "notfound 2100,2101", "notallowed 2102", "use 2000",
 			"group " + h("/api") + " 2001+2", "controller " + h("/c") + " 2002",
@@ -816,7 +865,8 @@ func (g *regGen) arg(allowEmpty bool) string {
 	return s
 }
 
-func (g *regGen) useCalls(min, max int) string {
+// useCalls: min..max Use calls; with late, calls after the first may be postponed to the end of the run (`~`).
+func (g *regGen) useCalls(min, max int, late bool) string {
 	n := g.r.Range(min, max)
 	if n == 0 {
 		return "-"
@@ -826,6 +876,9 @@ func (g *regGen) useCalls(min, max int) string {
 		a := g.arg(true)
 		if a == "-" {
 			a = "e"
+		}
+		if late && i > 0 && g.r.Chance(1, 3) {
+			a = "~" + a
 		}
 		cs[i] = a
 	}
@@ -861,7 +914,7 @@ func (g *regGen) route() {
 	switch kind {
 	case "verb":
 		methods = []string{g.r.Pick(regVerbs)}
-		post = g.useCalls(1, 3)
+		post = g.useCalls(1, 3, true)
 	case "add", "named", "pre":
 		methods = []string{g.r.Pick(regVerbs)}
 		if g.r.Chance(1, 3) {
@@ -870,16 +923,16 @@ func (g *regGen) route() {
 				methods = append(methods, m2)
 			}
 		}
-		post = g.useCalls(0, 2)
+		post = g.useCalls(0, 2, true)
 		if kind == "pre" {
-			pre = g.useCalls(0, 2)
+			pre = g.useCalls(0, 2, false)
 		}
 		if kind == "named" || (kind == "pre" && g.r.Bool()) {
 			name = hx(fmt.Sprintf("n%d", id))
 		}
 	case "any":
 		methods = rux.AnyMethods()
-		pre = g.useCalls(1, 1)
+		pre = g.useCalls(1, 1, false)
 	}
 	if kind != "any" {
 		ms = strings.Join(methods, ",")
